@@ -96,9 +96,30 @@ def oracle(impl, o):
     dd = defaultdict(int, d)
     od = OrderedDict(d)
 
+    # reference semantics of the with-blocks, tracked independently of the engine's flag set
+    own = {'': False, 'a': False, 'b': False, 'zz': False}
+    stack = []
+
+    def ref_step(e):
+        if e[0] == 'enter':
+            stack.append((str(e[2]), own[str(e[2])]))
+            own[str(e[2])] = (e[1] == '1')
+        elif e[0] == 'exit':
+            if stack:
+                ns0, prev = stack.pop()
+                own[ns0] = prev
+        else:
+            while stack:
+                ns0, prev = stack.pop()
+                own[ns0] = prev
+
     def observe(step):
+        ref_step(events[step])
         for ns in ('', 'a', 'b', 'zz'):
-            want_ins = bool(_C.is_dict_insertion_ordered(ns, True))
+            want_ins = own[ns] or own['']
+            if bool(_C.is_dict_insertion_ordered(ns, True)) != want_ins or \
+                    bool(_C.is_dict_insertion_ordered(ns, False)) != own[ns]:
+                fails.append({'key': 'mode-flag-wrong', 'what': f'step {step}: namespace {ns!r}: engine says own={bool(_C.is_dict_insertion_ordered(ns, False))} effective={bool(_C.is_dict_insertion_ordered(ns, True))}, the with-blocks entered so far imply own={own[ns]} effective={want_ins}'})
             want = [1, 2, 3] if want_ins else [2, 1, 3]
             obs = {
                 'tree_flatten': optree.tree_flatten(d, namespace=ns)[0],
